@@ -67,9 +67,9 @@ Definition step (st : sstate) (o : jv) : sstate * jv :=
   else if str_eqb name (pys "gc") then
     let ops := gc_ops now d in finish (JInt (Z.of_nat (length ops))) false (queue ops)
   else if str_eqb name (pys "reindex") then
-    finish (jstr "queued") false (queue [OReindex (idx_of_name (as_str (jfield "index" o))) (wevent_of_jv (jfield "event" o))])
+    finish (jstr "queued") false (queue [OReindex (idx_of_name (as_str (jfield "index" o))) (ctor now (wevent_of_jv (jfield "event" o)))])
   else if str_eqb name (pys "bulk") then
-    finish (jstr "queued") false (queue [OBulk (idx_of_name (as_str (jfield "index" o))) (map opt_wevent (as_arr (jfield "events" o)))])
+    finish (jstr "queued") false (queue [OBulk (idx_of_name (as_str (jfield "index" o))) (map (option_map (ctor now)) (map opt_wevent (as_arr (jfield "events" o))))])
   else if str_eqb name (pys "get") then
     finish (match get_event now d (as_str (jfield "id" o)) with
             | GRaise => jstr "raise" | GNone => JNull | GEvent w => jv_of_wevent w end) false (queue [])
@@ -118,6 +118,7 @@ Fixpoint check_steps (prev : kvdb) (ops obs : list jv) : list jv :=
           [if interrupted then lab "fault" (unchanged_report prev after) else effect e]
         else if str_eqb name (pys "gc") then [lab "gc" (gc_report now prev after)]
         else if str_eqb name (pys "del") then [lab "del" (del_report prev after (as_str (jfield "id" o)))]
+        else if str_eqb name (pys "release") then []          (* the writer drains what was queued while it was held *)
         else [lab "unchanged" (unchanged_report prev after)] in
       JArr (lab "coherence" (coherent_report after) :: reports) :: check_steps after ro rb
   | _, _ => []
